@@ -24,6 +24,27 @@ def check(ctx):
     rows = R.run_kind(ctx, 'multi')
     R.compare(ctx, rows, proj_values, 'C04 multi-source operators (TakeUntil, SkipUntil, SampleWhen, ThrottleWhen, Merge*, Race*): delivered values and terminal',
               nontrivial=lambda c, gd: gd.get('trace', '-') != '-', max_report=2)
+    # SequenceEqual over two synchronous sources: the model of the code (RoModel/Ops/SeqEq.lean) with equality; the documented
+    # function outside the known class (built on Zip2: blind to what lies beyond the shorter sequence)
+    rows = R.run_kind(ctx, 'seqeq', shards=2)
+    R.compare(ctx, rows, lambda d: (flag(d), d.get('out')), 'C04 SequenceEqual (model of the code)', nontrivial=lambda c, gd: True, max_report=2)
+    sq_known, sq_bad = 0, []
+    for c, g, l in rows:
+        gd, ld = R.parse_res(g), R.parse_res(l)
+        if gd.get('out') == ld.get('spec'):
+            continue
+        f = dict(kv.split('=', 1) for kv in c.split()[2:] if '=' in kv)
+        la = 0 if f.get('a', '-') == '-' else len(f['a'].split(','))
+        lb = 0 if f.get('b', '-') == '-' else len(f['b'].split(','))
+        if la != lb or (f.get('endb', 'C') != 'C' and lb >= la and f.get('enda', 'C') == 'C'):
+            sq_known += 1
+        else:
+            sq_bad.append((c, g, l))
+    # (the known class itself is listed in known_findings.jsonl with its witness: key op=SequenceEqual length)
+    ctx.notes.append(f'SequenceEqual: {sq_known} cases of this run fall in the known class (lengths differ / late error of the second source)')
+    if sq_bad:
+        c, g, l = sq_bad[0]
+        ctx.violation(f'C04 SequenceEqual: the result differs from the documented function outside the known class ({len(sq_bad)} cases)', f'{c}\n# implementation: {g}\n# model / documented: {l}\n')
     # FloorWithPrecision / CeilWithPrecision over exactly representable inputs: the integer n of result = n / 10^places
     rows = R.run_kind(ctx, 'precision', shards=2)
     R.compare(ctx, rows, proj_all, 'C04 FloorWithPrecision / CeilWithPrecision: n with result = n / 10^places (integers compared)', nontrivial=lambda c, gd: True, max_report=2)
